@@ -31,6 +31,10 @@ func runC05(c *report.Ctx) {
 	checkWatchdogIndependent(c)
 	checkSupervisorKill(c) // "every process terminated": the kill reaches the whole process group
 	checkResponseAlwaysCancellable(c)
+	checkInitResultAcked(c)
+	checkCancelClosesConnection(c)
+	checkInvokeRefusalPath(c) // the reset clears the completion channel after, not before, the sandbox reset
+	checkShutdownTop(c)       // who is killed at once and who gets the graceful sequence
 	checkErrorIdentity(c, scopeFrontEnd, frontEndDeadCases, 8)
 	c.Clause("1 timer and timeout case")
 	checkInvokeTimer(c)
